@@ -285,6 +285,27 @@ func (u *Unit) Solve(order []string, timeoutMs, seed int, agree bool, dumpDir st
 			todo = next
 		}
 	}
+	// incompleteness of quantifier instantiation shows up as `unknown` that depends on incidental details of the input
+	// (numbering of fresh constants): before an obligation counts as not discharged, the primary solver gets two more
+	// attempts with other random seeds, each query alone in its own session
+	if !agree {
+		for _, qi := range todo {
+			q := u.queries[qi]
+			if q.Short || q.Cover || isDecided(results[qi].Status) {
+				continue
+			}
+			for _, sd := range []int{seed + 1, seed + 2} {
+				script := u.script(order[0], []int{qi}, false)
+				out, secs := runSolver(solverSpecs[order[0]], script, timeoutMs, sd, 1)
+				st, detail := statusOf(parseAnswers(out)[qi])
+				results[qi].Answers[fmt.Sprintf("%s/seed%d", order[0], sd)] = st
+				if isDecided(st) {
+					results[qi].Status, results[qi].Solver, results[qi].TimeS, results[qi].Detail = st, order[0], secs, detail
+					break
+				}
+			}
+		}
+	}
 	// models for refuted obligations
 	for qi, r := range results {
 		q := u.queries[qi]
